@@ -11,10 +11,11 @@ import Model.Sequence
 import Model.PngDriver
 import Model.VectorDriver
 import Model.RasterDocsDriver
+import Model.RoutesDriver
 
 namespace Model
 
-def handlers : List (String → Req → Option String) := [handleCore, Lines.handle, Helpers.handle, CliDriver.handle, Iter.handle, handleSequence, PngDriver.handle, VectorDriver.handle, RasterDocsDriver.handle]
+def handlers : List (String → Req → Option String) := [handleCore, Lines.handle, Helpers.handle, CliDriver.handle, Iter.handle, handleSequence, PngDriver.handle, VectorDriver.handle, RasterDocsDriver.handle, RoutesDriver.handle]
 
 def handle (line : String) : String :=
   let (cmd, r) := parseReq line
